@@ -228,3 +228,44 @@ pub fn repro(ends: &[f64], body: &str) -> String {
         body
     )
 }
+
+/// The same elements in a vector with a different allocation history (what `==`, `Debug` and evaluation cannot see):
+/// 0 tight; 1 spare capacity larger than the length and than 4096 bytes; 2 truncated from a vector 700 elements longer;
+/// 3 grown by push; 4 one spare slot
+pub const SLACK_MODES: usize = 5;
+pub fn with_slack<T: Clone>(v: &[T], mode: usize) -> Vec<T> {
+    match mode {
+        0 => v.to_vec(),
+        1 => {
+            let mut w = Vec::with_capacity(v.len() * 2 + 4096 / std::mem::size_of::<T>().max(1) + 9);
+            w.extend_from_slice(v);
+            w
+        }
+        2 => {
+            let mut w = Vec::with_capacity(v.len() + 700);
+            w.extend_from_slice(v);
+            if let Some(x) = v.first() {
+                for _ in 0..700 {
+                    w.push(x.clone());
+                }
+            }
+            w.truncate(v.len());
+            w
+        }
+        3 => {
+            let mut w = Vec::new();
+            for x in v {
+                w.push(x.clone());
+            }
+            w
+        }
+        _ => {
+            let mut w = v.to_vec();
+            w.reserve_exact(1);
+            w
+        }
+    }
+}
+pub fn pw_with_slack<T: Clone>(f: &Piecewise<T>, mode: usize) -> Piecewise<T> {
+    Piecewise { segments: with_slack(&f.segments, mode) }
+}
